@@ -569,6 +569,40 @@ theorem action_sgood {st : Store} (sink : List SinkEv) (ms pubs : List Cmd) (hs 
     · rw [e] at hstamp; omega
     · exact sgood_single_head hmem hh hf hcg
 
+/-- `new_graph`: the created store holds reference states -/
+theorem newGraph_good {gid : Nat} {sink sink' : List SinkEv} {pubs : List Cmd} {st' : Store} {r : Except Err Unit}
+    (h : newGraph gid none sink pubs = (some st', sink', r)) (hw : WF (cmds st'.graph)) : CGood st'.graph := by
+  unfold newGraph at h
+  cases pubs with
+  | nil => simp at h
+  | cons c0 rest =>
+    simp only at h
+    by_cases hcond : c0.parents ≠ [] ∨ c0.id ≠ gid
+    · rw [if_pos hcond] at h; simp at h
+    · rw [if_neg hcond] at h
+      simp only [not_or, ne_eq, Decidable.not_not] at hcond
+      by_cases hr : (rule c0 {}).2.1 = true
+      · rw [if_pos hr] at h
+        rcases hp : publish [] rest c0.id (rule c0 {}).1 [⟨c0, (rule c0 {}).1⟩] (consumes c0.id (rule c0 {}).2.2) with ⟨evs, res⟩
+        rw [hp] at h
+        cases res with
+        | error e => cases e <;> simp at h
+        | ok ns =>
+          obtain ⟨new, s'⟩ := ns
+          simp only at h
+          cases hl : new.getLast? with
+          | none => rw [hl] at h; simp at h
+          | some l =>
+            rw [hl] at h
+            simp only [Prod.mk.injEq, Option.some.injEq] at h
+            obtain ⟨rfl, _, _⟩ := h
+            simp only at hw ⊢
+            obtain ⟨_, hg⟩ := publish_good [] rest c0.id (rule c0 {}).1 [⟨c0, (rule c0 {}).1⟩] _ evs new s' hp
+              (by simp [stateOf])
+            have := hg (by simpa using hw) (by simpa using cgood_root hcond.1)
+            simpa using this
+      · rw [if_neg hr] at h; simp at h
+
 theorem step_inv' {cl : Client} (h : ClientInv' cl) (op : Op) : ClientInv' (step cl op).1 := by
   have hb' := step_inv h.base op
   cases op with
@@ -690,6 +724,25 @@ theorem step_inv' {cl : Client} (h : ClientInv' cl) (op : Op) : ClientInv' (step
           have := h.base.trxs s' t' hm'
           rw [hst] at this
           exact tgood_stale this hstamp
+  | newGraph pubs =>
+    simp only [step] at hb' ⊢
+    rcases newGraph_spec cl.gid cl.store cl.sink pubs with ⟨e, sink', hc⟩ |
+      ⟨hnone, st', _, _, last, sink', _, _, _, hc, _, hl, hh, _, hf, hinv, _⟩
+    · rw [hc] at hb' ⊢
+      exact ⟨hb', h.store, h.trxs⟩
+    · rw [hc] at hb' ⊢
+      refine ⟨hb', ?_, ?_⟩
+      · intro st'' e'
+        simp only at e'
+        injection e' with e'; subst e'
+        have hcg : CGood st'.graph := newGraph_good (by rw [← hnone]; exact hc) hinv.wf
+        exact sgood_single_head (List.mem_of_getLast? hl) hh hf hcg
+      · intro s' t' hm' st'' _
+        have := h.base.trxs s' t' hm'
+        rw [hnone] at this
+        simp only at this
+        subst this
+        intro ho; cases ho
 
 theorem run_inv' {cl : Client} (h : ClientInv' cl) (ops : List Op) : ClientInv' (run cl ops) := by
   induction ops generalizing cl with
